@@ -93,10 +93,10 @@ type sweepVal struct {
 
 // every sample of every literal kind; canonical: the lexical form the statement calls canonical (the round trip is the identity)
 var literalSweep = map[string][]sweepVal{
-	"@duration": {{"PT5S", true}, {"P1DT2H3M4S", true}, {"P1Y2M3D", true}, {"-PT30M", true}, {"P2Y", true}, {"PT1H", true}, {"P1Y2M", true},
+	"@duration": {{"PT5S", true}, {"PT18446744073S", true}, {"P400Y", true}, {"P292Y", true}, {"P1DT2H3M4S", true}, {"P1Y2M3D", true}, {"-PT30M", true}, {"P2Y", true}, {"PT1H", true}, {"P1Y2M", true},
 		{"P1Y2M3DT4H5M6S", true}, {"-P2Y11M", true}, {"P11M", true}, {"P1Y11M29DT23H59M59S", true}, {"P3M", true}, {"P1Y1D", true},
 		{"P40D", false}, {"PT90M", false}, {"PT3600S", false}, {"P12M", false}, {"P14M", false}, {"-P18M", false}, {"P400D", false}, {"PT0S", false}},
-	"@datetime": {{"2020-02-03T04:05:06Z", true}, {"1999-12-31T23:59:59Z", true}, {"2024-02-29T00:00:00+05:30", true}, {"2016-05-17T08:30:00-07:00", true},
+	"@datetime": {{"2020-02-03T04:05:06Z", true}, {"0000-01-15T00:00:00Z", true}, {"0000-02-29T12:00:00Z", true}, {"1999-12-31T23:59:59Z", true}, {"2024-02-29T00:00:00+05:30", true}, {"2016-05-17T08:30:00-07:00", true},
 		{"2020-02-03T04:05:06+00:00", false}, {"2020-02-03T04:05Z", false}, {"2021-12-31T23:59:59-00:00", false}},
 	"@boolean":            {{true, true}, {false, true}, {float64(0), false}, {float64(1), false}},
 	"@float":              {{float64(0), true}, {float64(-1000), true}, {float64(999), true}},
